@@ -38,7 +38,8 @@ Fixpoint last_index_of (needle t : list N) : option nat :=
 
 (* ------------------------------------------------------------------ one expression with the facts finalize() derives *)
 Record facts := mkFacts { f_prefix : list N; f_suffix : list N; f_min : N; f_max : N }.
-Record rx := mkRx { r_prog : prog; r_ncap : nat; r_facts : facts }.
+(* r_names: Regexp.SubexpNames() -- per group index the variable it binds (index 0 = the whole match, never named) *)
+Record rx := mkRx { r_prog : prog; r_ncap : nat; r_facts : facts; r_names : list (option nat) }.
 
 Definition plain (F : nat) (r : rx) (buffer : list N) : option caps := search F (r_prog r) (r_ncap r) buffer.
 
@@ -134,40 +135,135 @@ Fixpoint boundary_scan (d : bool) (off : nat) (rev_bl : list (nat * nat)) : opti
 Definition boundary (s : source) (d : bool) (off : nat) : option nat := boundary_scan d off (rev (cumul s 0 0)).
 
 (* ------------------------------------------------------------------ conditions and progress *)
-Record elem := mkElem { e_dir : bool; e_rx : nat }.                       (* index into the expression table *)
+(* An element either is a fixed expression of the table, or uses variables captured by earlier elements of its
+   sequence (@name@): then finalize() compiles a precondition [pre] (every use replaced by "any bytes"), and only after
+   that matched, prepare() compiles the expression with QuoteMeta of the captured values substituted. The compiler is
+   not modelled: [table] lists, for the value tuples that can arise, the table index of the compiled substitution
+   (dumped by the harness; a value tuple that is not listed makes the evaluation report MISSING). *)
+Definition value := list N.
+Inductive eref := EFixed (k : nat) | ESubst (pre : nat) (uses : list nat) (table : list (list value * nat)).
+Record elem := mkElem { e_dir : bool; e_ref : eref }.
+Definition e_rx (e : elem) : nat := match e_ref e with EFixed k => k | ESubst pre _ _ => pre end.   (* sharing identity *)
 Record cond := mkCond { c_inv : bool; c_elems : list elem }.
-Record progress := mkProgress { p_offc : nat; p_offs : nat; p_n : nat; p_bad : bool }.   (* p_bad: index panic *)
-Definition progress0 := mkProgress 0 0 0 false.
+
+(* p_pre: progressVariantFlagStatePreconditionMatched; p_err: 0 none, 1 "variable not defined", 2 "variable already seen",
+   3 index out of range / no table entry (MISSING) *)
+Record progress := mkProgress { p_offc : nat; p_offs : nat; p_n : nat; p_pre : bool; p_vars : list (nat * value); p_err : nat }.
+Definition progress0 := mkProgress 0 0 0 false [] 0.
 Definition p_off (d : bool) (p : progress) : nat := if d then p_offs p else p_offc p.
 Definition set_off (d : bool) (v : nat) (p : progress) : progress :=
-  if d then mkProgress (p_offc p) v (p_n p) (p_bad p) else mkProgress v (p_offs p) (p_n p) (p_bad p).
+  if d then mkProgress (p_offc p) v (p_n p) (p_pre p) (p_vars p) (p_err p)
+  else mkProgress v (p_offs p) (p_n p) (p_pre p) (p_vars p) (p_err p).
+Definition set_err (e : nat) (p : progress) : progress := mkProgress (p_offc p) (p_offs p) (p_n p) (p_pre p) (p_vars p) e.
+Definition set_pre (b : bool) (p : progress) : progress := mkProgress (p_offc p) (p_offs p) (p_n p) b (p_vars p) (p_err p).
+Definition set_vars (v : list (nat * value)) (p : progress) : progress := mkProgress (p_offc p) (p_offs p) (p_n p) (p_pre p) v (p_err p).
+Definition matched (p : progress) : progress := mkProgress (p_offc p) (p_offs p) (S (p_n p)) false (p_vars p) (p_err p).
 
 Definition match_end (res : caps) : nat := match nth_error res 1 with Some (Some e) => e | _ => 0 end.
+
+(* variables *)
+Fixpoint var_get (n : nat) (vars : list (nat * value)) : option value :=
+  match vars with [] => None | (k, v) :: r => if Nat.eqb n k then Some v else var_get n r end.
+Fixpoint vals_of (vars : list (nat * value)) (uses : list nat) : option (list value) :=
+  match uses with
+  | [] => Some []
+  | u :: r => match var_get u vars, vals_of vars r with Some v, Some vs => Some (v :: vs) | _, _ => None end
+  end.
+Fixpoint value_eqb (a b : value) : bool :=
+  match a, b with [], [] => true | x :: a', y :: b' => N.eqb x y && value_eqb a' b' | _, _ => false end.
+Fixpoint values_eqb (a b : list value) : bool :=
+  match a, b with [], [] => true | x :: a', y :: b' => value_eqb x y && values_eqb a' b' | _, _ => false end.
+Fixpoint table_find (vs : list value) (table : list (list value * nat)) : option nat :=
+  match table with [] => None | (k, i) :: r => if values_eqb vs k then Some i else table_find vs r end.
+
+Inductive resolved := RRx (r : rx) | RUndefined | RMissing.
+(* the expression an element is searched with, given the variables captured so far *)
+Definition resolve (tbl : list rx) (e : elem) (vars : list (nat * value)) : resolved :=
+  match e_ref e with
+  | EFixed k => match nth_error tbl k with Some r => RRx r | None => RMissing end
+  | ESubst _ uses table =>
+    match vals_of vars uses with
+    | None => RUndefined
+    | Some vs => match table_find vs table with
+                 | Some i => match nth_error tbl i with Some r => RRx r | None => RMissing end
+                 | None => RMissing
+                 end
+    end
+  end.
+
+(* the bytes of group i of a match in [buffer]; a group that did not take part is the empty string *)
+Definition cap_value (buffer : list N) (m : caps) (i : nat) : value :=
+  match nth_error m (2 * i), nth_error m (2 * i + 1) with
+  | Some (Some a), Some (Some b) => firstn (b - a) (skipn a buffer)
+  | _, _ => []
+  end.
+(* `for i := 2; i < len(res); i += 2`: bind the named groups; None = "variable already seen" *)
+Fixpoint bind_names (names : list (option nat)) (i : nat) (buffer : list N) (m : caps) (vars : list (nat * value))
+  : option (list (nat * value)) :=
+  match names with
+  | [] => Some vars
+  | None :: r => bind_names r (S i) buffer m vars
+  | Some nm :: r => match var_get nm vars with
+                    | Some _ => None
+                    | None => bind_names r (S i) buffer m (vars ++ [(nm, cap_value buffer m i)])
+                    end
+  end.
+Definition bind (r : rx) (buffer : list N) (m : caps) (vars : list (nat * value)) : option (list (nat * value)) :=
+  bind_names (tl (r_names r)) 1 buffer m vars.
+
+(* after a successful find of the expression r from offset [off] (already stored in p) *)
+Definition after_find (s : source) (c : cond) (d : bool) (r : rx) (off : nat) (m : caps) (p : progress) : progress :=
+  let p := matched p in
+  if Nat.eqb (p_n p) (length (c_elems c)) && c_inv c then p
+  else match bind r (skipn off (dir_data d s)) m (p_vars p) with
+       | None => set_err 2 p
+       | Some vs =>
+         let p := set_vars vs p in
+         if Nat.eqb (match_end m) 0 then p
+         else let p := set_off d (off + match_end m) p in
+              match boundary s d (p_off d p) with
+              | Some o => set_off (negb d) o p
+              | None => set_err 3 p
+              end
+       end.
+
+(* prepare() + find() with the expression itself *)
+Definition exact_stage (F : nat) (guard : bool) (tbl : list rx) (s : source) (c : cond) (e : elem) (p : progress) : progress :=
+  match resolve tbl e (p_vars p) with
+  | RUndefined => set_err 1 p
+  | RMissing => set_err 3 p
+  | RRx r =>
+    let d := e_dir e in
+    let (res, off) := find F guard r (dir_data d s) (p_off d p) in
+    let p := set_off d off p in
+    match res with
+    | None => p
+    | Some m => after_find s c d r off m p
+    end
+  end.
 
 (* one visit of the loop body for occurrence (condition c, element index k) *)
 Definition attempt (F : nat) (guard : bool) (tbl : list rx) (s : source) (c : cond) (k : nat) (p : progress) : progress :=
   if negb (Nat.eqb k (p_n p)) then p
+  else if negb (Nat.eqb (p_err p) 0) then p                    (* the filter has returned the error *)
   else match nth_error (c_elems c) k with
        | None => p
        | Some e =>
-         match nth_error tbl (e_rx e) with
-         | None => mkProgress (p_offc p) (p_offs p) (p_n p) true
-         | Some r =>
-           let d := e_dir e in
-           let (res, off) := find F guard r (dir_data d s) (p_off d p) in
-           let p := set_off d off p in
-           match res with
-           | None => p
-           | Some m =>
-             let p := mkProgress (p_offc p) (p_offs p) (S (p_n p)) (p_bad p) in
-             if Nat.eqb (p_n p) (length (c_elems c)) && c_inv c then p
-             else if Nat.eqb (match_end m) 0 then p
-             else let p := set_off d (off + match_end m) p in
-                  match boundary s d (p_off d p) with
-                  | Some o => set_off (negb d) o p
-                  | None => mkProgress (p_offc p) (p_offs p) (p_n p) true
+         match e_ref e with
+         | EFixed _ => exact_stage F guard tbl s c e p
+         | ESubst pre _ _ =>
+           if p_pre p then exact_stage F guard tbl s c e p
+           else match nth_error tbl pre with
+                | None => set_err 3 p
+                | Some r =>
+                  let d := e_dir e in
+                  let (res, off) := find F guard r (dir_data d s) (p_off d p) in
+                  let p := set_off d off p in
+                  match res with
+                  | None => p
+                  | Some _ => set_pre true p                   (* flags += PreconditionMatched - Precondition; recheck *)
                   end
-           end
+                end
          end
        end.
 
@@ -207,7 +303,8 @@ Fixpoint update {A} (n : nat) (f : A -> A) (l : list A) : list A :=
 
 (* did this visit advance its sequence to a state that is not yet complete? (sets recheckRegexes) *)
 Definition advanced_incomplete (c : cond) (p p' : progress) : bool :=
-  negb (Nat.eqb (p_n p') (p_n p)) && negb (Nat.eqb (p_n p') (length (c_elems c))).
+  (negb (Nat.eqb (p_n p') (p_n p)) && negb (Nat.eqb (p_n p') (length (c_elems c))))
+  || (negb (p_pre p) && p_pre p').
 
 Definition visit (F : nat) (guard : bool) (tbl : list rx) (s : source) (cs : list cond) (st : list progress * bool) (o : occ) : list progress * bool :=
   match nth_error cs (fst o), nth_error (fst st) (fst o) with
@@ -229,7 +326,7 @@ Fixpoint group_loop (F : nat) (guard : bool) (tbl : list rx) (s : source) (cs : 
            if again then group_loop F guard tbl s cs order f ps' else ps'
   end.
 
-Definition loop_fuel (cs : list cond) : nat := S (fold_right (fun c a => length (c_elems c) + a) 0 cs).
+Definition loop_fuel (cs : list cond) : nat := S (2 * fold_right (fun c a => length (c_elems c) + a) 0 cs).
 
 Definition source_eval (F : nat) (guard : bool) (tbl : list rx) (cs : list cond) (s : source) : list progress :=
   group_loop F guard tbl s cs (visit_order cs) (loop_fuel cs) (map (fun _ => progress0) cs).
@@ -275,8 +372,12 @@ Definition conj_selected (F : nat) (guard : bool) (tbl : list rx) (cn : conv_nam
                  (List.combine cs (map (cond_results F guard tbl cs srcs) (seq 0 (length cs))))
   end.
 
-Definition any_bad (F : nat) (guard : bool) (tbl : list rx) (cn : conv_name) (cs : list cond) (st : stream) : bool :=
-  existsb (fun s => existsb p_bad (source_eval F guard tbl cs s)) (sources_of cn st).
+(* the error the filter returns for this stream (0 = none): the first one in source order, condition order *)
+Definition first_err (F : nat) (guard : bool) (tbl : list rx) (cn : conv_name) (cs : list cond) (st : stream) : nat :=
+  fold_left (fun acc s => if Nat.eqb acc 0
+                          then fold_left (fun a p => if Nat.eqb a 0 then p_err p else a) (source_eval F guard tbl cs s) 0
+                          else acc)
+            (sources_of cn st) 0.
 
 Definition stream_selected (F : nat) (guard : bool) (tbl : list rx) (cn : conv_name) (ors : list (list cond)) (st : stream) : bool :=
   existsb (fun cs => conj_selected F guard tbl cn cs st) ors.
@@ -292,30 +393,33 @@ Fixpoint boundary_spec (s : source) (d : bool) (off : nat) (cd co : nat) : optio
     else boundary_spec r d off cd (co + length x)
   end.
 
-(* number of leading elements matched, each by a plain scan of the data that follows the previous match *)
-Fixpoint seq_spec (F : nat) (tbl : list rx) (s : source) (es : list elem) (offc offs : nat) : nat :=
+(* number of leading elements matched, each by a plain scan -- with the expression in which the variables captured so
+   far are substituted -- of the data that follows the previous match *)
+Fixpoint seq_spec (F : nat) (tbl : list rx) (s : source) (es : list elem) (offc offs : nat) (vars : list (nat * value)) : nat :=
   match es with
   | [] => 0
   | e :: r =>
-    match nth_error tbl (e_rx e) with
-    | None => 0
-    | Some x =>
+    match resolve tbl e vars with
+    | RUndefined | RMissing => 0
+    | RRx x =>
       let d := e_dir e in
       let off := if d then offs else offc in
-      match plain F x (skipn off (dir_data d s)) with
+      let buffer := skipn off (dir_data d s) in
+      match plain F x buffer with
       | None => 0
       | Some m =>
+        let vars' := match bind x buffer m vars with Some v => v | None => vars end in
         let en := match_end m in
-        if Nat.eqb en 0 then S (seq_spec F tbl s r offc offs)
+        if Nat.eqb en 0 then S (seq_spec F tbl s r offc offs vars')
         else let off' := off + en in
              let other := match boundary_spec s d off' 0 0 with Some o => o | None => 0 end in
-             S (if d then seq_spec F tbl s r other off' else seq_spec F tbl s r off' other)
+             S (if d then seq_spec F tbl s r other off' vars' else seq_spec F tbl s r off' other vars')
       end
     end
   end.
 
 Definition cond_holds_spec (F : nat) (tbl : list rx) (c : cond) (s : source) : bool :=
-  let n := seq_spec F tbl s (c_elems c) 0 0 in
+  let n := seq_spec F tbl s (c_elems c) 0 0 [] in
   if c_inv c then Nat.eqb (S n) (length (c_elems c)) else Nat.eqb n (length (c_elems c)).
 
 Definition conj_spec (F : nat) (tbl : list rx) (cn : conv_name) (cs : list cond) (st : stream) : bool :=
